@@ -17,6 +17,7 @@ import numpy as np
 
 from .. import tlc
 from ..common import Report, MachineryError, seed, quiet
+from . import cyclo12 as cy
 from .tbf_common import (cyclo_library_check, sorted_states, build_system, exact_rows_array, validate_parallel, tlc_batch,
                          drop_scratch, guarded, skipped_private, finish_on_error, project_exact, TOL)
 
@@ -44,6 +45,8 @@ PROPS = {
 }
 
 LIBS = ("fftw", "numpy", "slow")
+# the constructor lower-cases fftlib (documented as case-insensitive): spellings are an input class
+SPELL = {"fftw": ("fftw", "FFTW", "fftW"), "numpy": ("numpy", "NumPy", "NuMpY"), "slow": ("slow", "Slow", "SLOW")}
 INVS = ("ModelHermitian", "HkHermitian", "DerHermitian", "FFTEqualsDirect", "HermSymNoopHHK", "Periodic")
 LATS = {1: [[1, 0, 0], [0, 1, 0], [0, 0, 1]], 2: [[1, 0, 0], [1, 2, 0], [0, 0, 1]], 3: [[2, 0, 0], [0, 1, 0], [1, 0, 3]]}
 TAUS = {(1, 1): [[0, 0, 0]], (1, 2): [[2, -1, 0]], (1, 3): [[5, 2, 1]],
@@ -149,7 +152,7 @@ def evaluate(d, maxder):
     return res
 
 
-def run_backends(rep, det, syst, fft, dk12, maxder, k_list=None, libs=LIBS):
+def run_backends(rep, det, syst, fft, dk12, maxder, k_list=None, libs=LIBS, spell=None):
     """-> {lib: (results, kpoints_all of that Data_K or None)}; "klist" for the explicit list.  A back end that raises is a violation
     and is left out"""
     from wannierberri.data_K.data_K_R import Data_K_R
@@ -159,7 +162,7 @@ def run_backends(rep, det, syst, fft, dk12, maxder, k_list=None, libs=LIBS):
     for lib in libs:
         def run(lib=lib):
             with quiet():
-                d = Data_K_R(syst, dK=dK, grid=grid, fftlib=lib)
+                d = Data_K_R(syst, dK=dK, grid=grid, fftlib=(spell or {}).get(lib, lib))
                 res = evaluate(d, maxder)
             note_label(rep, d, expected_label(lib))
             try:
@@ -168,7 +171,7 @@ def run_backends(rep, det, syst, fft, dk12, maxder, k_list=None, libs=LIBS):
                 skipped_private(rep, "Data_K.kpoints_all (the order of the FFT grid is then assumed to be the one of the specification)", ex)
                 ka = None
             return res, ka
-        done, r = guarded(rep, f"Data_K_R:{lib}", dict(det, fftlib=lib), run)
+        done, r = guarded(rep, f"Data_K_R:{lib}", dict(det, fftlib=(spell or {}).get(lib, lib)), run)
         if done:
             out[lib] = r
     if k_list is not None:
@@ -206,7 +209,9 @@ def replay_state(rep, cmp, s, maxder, rng, full, info):
     g = [rng.choice([-1, 0, 1, 2]) for _ in range(3)]
     k_list = (np.array(kspec, dtype=float)[perm] + 12.0 * np.array(g, dtype=float)) / 12.0
     libs = LIBS if full else ("numpy", rng.choice(("fftw", "slow")))
-    raw = run_backends(rep, det, syst, fft, dk, maxder, k_list=k_list, libs=libs)
+    spell = {lib: rng.choice(SPELL[lib]) if rng.random() < 0.3 else lib for lib in libs}
+    info["mixed_case_spellings"] += sum(spell[lib] != lib for lib in libs)
+    raw = run_backends(rep, det, syst, fft, dk, maxder, k_list=k_list, libs=libs, spell=spell)
     res = {}
     for lib, (r, ka) in raw.items():
         # the rows are at the k-points the code reports (any order of the grid); the explicit list is in the order we gave
@@ -235,6 +240,7 @@ def replay_state(rep, cmp, s, maxder, rng, full, info):
         if ok:
             res[lib] = out
     for lib, r in res.items():
+        det = dict(det, fftlib_as_passed=spell.get(lib, lib))
         cmp.close(f"HH_K:{lib}", r[("HH_K",)], exp[0], dict(det, fftlib=lib))
         cmp.herm(f"hermitian:HH_K:{lib}", r[("HH_K",)], dict(det, fftlib=lib))
         for n in range(min(maxder, 1) + 1):
@@ -251,6 +257,87 @@ def replay_state(rep, cmp, s, maxder, rng, full, info):
                 cmp.close(f"backends_differ:{names[i]}-{names[j]}:{key[0]}:{'der' + str(key[1]) if len(key) > 1 else 'der0'}",
                           res[names[i]][key], res[names[j]][key], dict(det, quantity=list(key)))
     info["backends_per_state"][len(res)] += 1
+    return det
+
+
+# ---------------------------------------------------------------- call histories on one Rvectors object
+HIST_INVS = ("ResultsAreValues", "HermNoop")
+
+
+def hist_cfg(**kw):
+    d = dict(MODELIDS="{1, 2}", TARGETIDS="{1, 2, 3}", ARGIDS="{1, 2, 3}", LIBS='{"fftw", "FFTW", "numpy", "NumPy", "slow", "Slow"}',
+             DEPTH=4, MAXRET=1, SharedBuffer="FALSE", StaleDK="FALSE", KeepSpelling="FALSE")
+    d.update(kw)
+    return ("SPECIFICATION Spec\nCONSTANTS\n" + "".join(f"  {k} = {v}\n" for k, v in d.items()) +
+            "".join(f"INVARIANT {i}\n" for i in HIST_INVS) + "CHECK_DEADLOCK FALSE\n"), d
+
+
+HIST_SENS = dict(MODELIDS="{1}", TARGETIDS="{1, 3}", ARGIDS="{1, 3}", LIBS='{"fftw"}', DEPTH=4, MAXRET=1)
+
+
+def replay_history(rep, cmp, s, systs, info):
+    """one behaviour of MC_TBFourierHist on ONE real Rvectors object: set_fft_R_to_k / apply_expdK + R_to_k in the order of the
+    history; every returned array is kept (the array itself, plus a reference copy taken at return time) and ALL of them are
+    looked at again after every later call"""
+    lib = s["lib"]
+    canon = lib.lower()
+    hops = [dict(h) for h in s["hops"]]
+    hist = [dict(e) for e in s["hist"]]
+    calls = []
+    for e in hist:
+        if e["op"] == "target":
+            t = dict(e["t"])
+            calls.append(f"set_fft_R_to_k(NK={list(t['fft'])}, dK={list(t['dk'])}/12, fftlib={lib!r})" if t["kind"] == "grid"
+                         else f"set_fft_R_to_k(k_list={[list(k) for k in t['kl']]}/12)")
+        else:
+            calls.append(f"R_to_k(apply_expdK(Ham_R), der={len(e['cs'])}, hermitian={bool(e['herm'])})")
+    det = dict(nw=2, lattice=LATS[2], centres_times_4=TAUS[(2, 2)], hops=[dict(R=list(h["R"]), a=h["a"], b=h["b"], v=list(h["v"])) for h in hops],
+               fftlib_as_passed=lib, calls_on_one_Rvectors_object=calls)
+    if s["model"] not in systs:
+        done, syst = guarded(rep, "System_R.from_sparse", det, lambda: build_system(2, LATS[2], DD, TAUS[(2, 2)], hops))
+        systs[s["model"]] = syst if done else None
+    syst = systs[s["model"]]
+    if syst is None:
+        return det
+    held = []
+
+    def look_again(step):
+        for h in held:
+            if not h["reported"] and not np.array_equal(h["arr"], h["ref"], equal_nan=True):
+                h["reported"] = True
+                rep.violation(f"R_to_k:{h['label']}:earlier_result_overwritten",
+                              dict(det, result_of_call=h["call"], changed_after_call=step,
+                                   what="an array returned by an earlier R_to_k changed its contents when a later call was made on the same object",
+                                   max_change=float(np.nanmax(np.abs(h["arr"] - h["ref"])))))
+
+    def run():
+        with quiet():
+            rv = syst.rvec.copy()
+            ham = np.asarray(syst.get_R_mat('Ham'))
+            cur, nret = None, -1
+            for step, e in enumerate(hist):
+                if e["op"] == "target":
+                    cur = dict(e["t"])
+                    nret += 1
+                    if cur["kind"] == "grid":
+                        rv.set_fft_R_to_k(NK=tuple(cur["fft"]), num_wann=2, fftlib=lib, dK=np.array(cur["dk"], dtype=float) / 12.0)
+                    else:
+                        rv.set_fft_R_to_k(NK=None, num_wann=2, k_list=np.array(cur["kl"], dtype=float) / 12.0)
+                else:
+                    n = len(e["cs"])
+                    out = rv.R_to_k(rv.apply_expdK(ham.copy()), der=n, hermitian=bool(e["herm"]))
+                    label = "klist" if cur["kind"] == "klist" else canon + ("" if lib == canon else ":mixed_case_fftlib")
+                    exp = cy.arr_to_complex(np.array(e["rows"], dtype=float).reshape(-1, 2, 2, 4)) / float(DD) ** n
+                    got = np.asarray(out)
+                    comp = got[(slice(None), slice(None), slice(None)) + tuple(c - 1 for c in e["cs"])] if got.ndim == 3 + n else got
+                    cmp.close(f"history:R_to_k:{label}:{'after_retarget:' if nret > 0 else ''}der{n}{':hermitian=True' if e['herm'] else ''}",
+                              comp, exp, dict(det, call=step + 1))
+                    if isinstance(out, np.ndarray):
+                        held.append(dict(arr=out, ref=out.copy(), label=label, call=step + 1, reported=False))
+                look_again(step + 1)
+    guarded(rep, f"history:{'klist' if False else canon}", det, run)
+    info["histories"] += 1
+    info["results_held"] += len(held)
     return det
 
 
@@ -310,8 +397,9 @@ def make_record(rep, rng, m):
     cs = sorted(rng.randint(1, 3) for _ in range(n))
     rng.shuffle(cs)
     kind = rng.choice(["fftw", "numpy", "slow", "klist"])
+    spelled = kind if kind == "klist" or rng.random() < 0.6 else rng.choice(SPELL[kind])
     via = rng.choice(["Xbar", "R_to_k"]) if n > 0 else rng.choice(["HH_K", "Xbar", "R_to_k"])
-    rec = dict(m, cs=cs, via=via)
+    rec = dict(m, cs=cs, via=via, fftlib_as_passed=spelled)
     nkl = rng.randint(1, 8)
     k12 = [[rng.randint(-12, 23) for _ in range(3)] for _ in range(nkl)]
     det = {k: v for k, v in rec.items()}
@@ -323,7 +411,7 @@ def make_record(rep, rng, m):
             if kind == "klist":
                 d = Data_K_R(syst, grid=grid, k_list=np.array(k12, dtype=float) / 12.0, fftlib="fftw")
             else:
-                d = Data_K_R(syst, dK=np.array(m["dk"], dtype=float) / 12.0, grid=grid, fftlib=kind)
+                d = Data_K_R(syst, dK=np.array(m["dk"], dtype=float) / 12.0, grid=grid, fftlib=spelled)
             if via == "HH_K":
                 A = np.array(d.HH_K)
             elif via == "Xbar":
